@@ -204,7 +204,7 @@ def c07_replay(ctx, path):
 # Streams (harness sub-command -> Coq check function): node (CorrNode.check_node), solve (CorrSolve.check_solve), tree (CorrTree.check_tree).
 
 NODE = {"agree": 1, "hard": 2, "class": 4, "nosol": 8, "inf": 16, "feas": 32, "impl_panic": 64, "score": 128, "housed": 256, "hardc": 512,
-        "model_panic": 1024}
+        "model_panic": 1024, "kids_ok": 2048}
 SOLVE = {"accepted": 1, "stopped": 2, "result": 4, "stats": 8, "hard": 16, "class": 32, "heap": 64, "outcome": 128, "score": 256, "housed": 512,
          "quality": 1024, "tc": 2048, "found": 4096, "nobetter": 8192, "nonbinding": 16384, "returned": 32768}
 TREE = {"accepted": 1, "stopped": 2, "result": 4, "stats": 8, "c09": 16, "class": 32, "heap": 64, "outcome": 128, "haspanic": 256, "returned": 512,
@@ -399,6 +399,9 @@ def spec_c01(c):
         return "C01: a Feasible node result violates the hard constraints (hard_okb evaluated in Coq on the implementation's assignment)"
     if c["stream"] == "solve" and has(c, SOLVE, "class", "found") and not has(c, SOLVE, "hard"):
         return "C01: the assignment returned by caobab::solve violates the hard constraints (hard_okb evaluated in Coq)"
+    if c["stream"] == "node" and has(c, NODE, "class", "inf") and not has(c, NODE, "kids_ok"):
+        return "C01: a subproblem generates a child that cancels a fixed course / is not well formed (the invariants NoFix / Wf2 of generated " \
+               "subproblems, checked on the implementation's own children)"
     return None
 
 
@@ -1189,6 +1192,13 @@ def streams_c10(ctx, scale, off):
     return ss + [s3], cs + c3
 
 
+def streams_solver_tie(ctx, scale, off):
+    """C05 / C11 are stated for hard-feasible assignments: the tie of the solver to its model (C01) is part of what they rest on"""
+    s1, c1 = node_stream(ctx, ctx.seed + off + 21, 150 * scale, rooms=2)
+    s2, c2 = solve_stream(ctx, ctx.seed + off + 22, 60 * scale, rooms=2)
+    return [s1, s2], c1 + c2
+
+
 def c08_extra(ctx, cases):
     return c12_extra(ctx, cases, for_c08=True)
 
@@ -1238,7 +1248,8 @@ REGISTRY = {
         trusted_base=["modelled, not verified: src/io/cdedb.rs read(); serde_json text -> Value (BTreeMap key order) trusted; timestamp parsing "
                       "not modelled"],
         assumptions=[]),
-    "C05": dict(mk(spec_none, streams_none, "end to end: generated exports -> real binary --cde (1 thread; track given/omitted, all ignore-flag "
+    "C05": dict(mk(spec_c01, streams_solver_tie, "solver tie (the theorems speak about hard-feasible assignments): node and solve streams with "
+                   "hard_okb on the implementation's assignments; end to end: generated exports -> real binary --cde (1 thread; track given/omitted, all ignore-flag "
                    "combinations) -> import file parsed -> checked in Coq against the reader model's problem (Cde.import_okb) and the write model",
                    extra_fn=c05_extra), allow_axioms=(),
         explanation="C05 (Cde theorems): for the problem the reader builds, every hard-feasible assignment (C01) is written as an import file that "
@@ -1249,7 +1260,7 @@ REGISTRY = {
         trusted_base=["modelled, not verified: cdedb.rs read()/write() (registrations and segments; summary text, timestamps and the rooms field are "
                       "not modelled); the meaning of a partial import in the CdE Datenbank is taken from the property text"],
         assumptions=["registrations the reader drops (not 'participant', no valid choice and no instructed course) keep what the database holds"]),
-    "C11": dict(mk(spec_none, streams_none, "as C05 with dense existing assignments (as attendee, as instructor of the same or another course, to "
+    "C11": dict(mk(spec_c01, streams_solver_tie, "solver tie as C05; as C05 with dense existing assignments (as attendee, as instructor of the same or another course, to "
                    "cancelled / not offered courses, beyond max_size, below min_size) and the three option sets with an ignore flag; plus an "
                    "independent reading of the raw export for 'ignored registrations are not mentioned, their courses stay active, cancelled "
                    "courses are not mentioned'", extra_fn=c11_extra), allow_axioms=(),
